@@ -71,7 +71,11 @@ def optional_props_resource(rng):
 def list_param_resource(rng):
     """list-typed and value-less parameters, used where a list / a string is expected"""
     return {"Type": "Custom::Uses", "Properties": {"Subnets": {"Ref": "Subnets"}, "First": {"Fn::Select": [0, {"Ref": "Names"}]}, "Joined": {"Fn::Join": [",", {"Ref": "Names"}]},
-                                                   "Ports": {"Ref": "Ports"}, "OnePort": {"Ref": "OnePort"}, "FirstZone": {"Fn::Select": [0, {"Ref": "Zones"}]}, "Missing": {"Ref": "NoValueList"}, "Plain": {"Ref": "NoValue"}, "Each": [{"Ref": "Env"}, {"Fn::Sub": "${Env}-${AWS::Region}"}],
+                                                   "Ports": {"Ref": "Ports"}, "OnePort": {"Ref": "OnePort"}, "FirstZone": {"Fn::Select": [0, {"Ref": "Zones"}]}, "Missing": {"Ref": "NoValueList"}, "Plain": {"Ref": "NoValue"},
+                                                   # the section of an Fn::If that is not taken need not make sense for this assignment (here: text used as an index)
+                                                   "Az1": {"Fn::If": ["AlwaysTrue", {"Ref": "Env"}, {"Fn::Select": [{"Ref": "Env"}, ["a", "b"]]}]},
+                                                   "Az2": {"Fn::If": ["AlwaysFalse", {"Fn::Select": [{"Ref": "Env"}, ["a", "b"]]}, {"Ref": "Env"}]},
+                                                   "Each": [{"Ref": "Env"}, {"Fn::Sub": "${Env}-${AWS::Region}"}],
                                                    # numbers and booleans stored in a mapping, joined into text
                                                    "Desc": {"Fn::Join": ["", ["port ", {"Fn::FindInMap": ["Stages", rng.choice(["prod", "dev", {"Ref": "Env"}]), rng.choice(["Port", "Secure"])]}]]},
                                                    "Ports2": {"Fn::Join": [",", [{"Fn::FindInMap": ["Stages", "prod", "Port"]}, {"Ref": "Count"}, "x"]]}}}
@@ -120,7 +124,8 @@ def gen_case(rng, i):
         kinds.append(k)
         res[f"R{j}"] = r
     t = {"AWSTemplateFormatVersion": "2010-09-09", "Description": "d", "Parameters": copy.deepcopy(PARAMS),
-         "Conditions": {"IsProd": {"Fn::Equals": [{"Ref": "Env"}, "prod"]}, "IsDev": {"Fn::Not": [{"Condition": "IsProd"}]}},
+         "Conditions": {"IsProd": {"Fn::Equals": [{"Ref": "Env"}, "prod"]}, "IsDev": {"Fn::Not": [{"Condition": "IsProd"}]},
+                        "AlwaysTrue": {"Fn::Equals": ["a", "a"]}, "AlwaysFalse": {"Fn::Equals": ["a", "b"]}},
          "Mappings": {"M": {"a": {"b": "c"}}, "Stages": {"prod": {"Port": 8443, "Secure": True}, "dev": {"Port": 8080, "Secure": False}}}, "Resources": res, "Outputs": {"O": {"Value": {"Ref": "R0"}}}}
     extra = rng.choice([{}, {"Env": "prod"}, {"Env": "prod", "Names": "x", "NoValue": "given", "Ports": "1,2,3"}, {"NoValueList": "p,q", "Unused": "u"}, {"Ports": 8443, "Count": 7}, {"Names": 5, "Env": "dev"}])
     if i % 5 == 4:
@@ -133,6 +138,8 @@ def gen_case(rng, i):
             t2["Parameters"].setdefault(k, v)
         t2["Conditions"].setdefault("IsProd", t["Conditions"]["IsProd"])
         t2["Conditions"].setdefault("IsDev", t["Conditions"]["IsDev"])
+        t2["Conditions"].setdefault("AlwaysTrue", t["Conditions"]["AlwaysTrue"])
+        t2["Conditions"].setdefault("AlwaysFalse", t["Conditions"]["AlwaysFalse"])
         t2["Mappings"].update(t["Mappings"])
         t = t2
         kinds = kinds[:3] + ["functions"]
